@@ -185,6 +185,18 @@ def points_case(job, t0):
     T = realise.frame_affine(word) if word else None
     npts = 0
     pm = None
+    if opts.get("mirror"):
+        # a mirror through the API after the shape was queried: scale(-1, 1) reverses the
+        # orientation of every boundary curve, so the object denotes the mirror image of the
+        # COMPLEMENT (the region is defined by the orientation; C09 restricts itself to positive
+        # factors for that reason).  Membership must follow the geometry, not an earlier answer.
+        obj = w.canonical(reg)
+        float(obj), (0.123, 0.456) in obj
+        for j in obj.jordans:
+            float(j)
+        obj.scale(-1, 1)
+        T = realise.Affine(-1, 0, 0, 0, 1, 0)
+        reg = st.u.full ^ reg
     for kind, key, g in w.wit + real.boundary_witnesses():
         exp = expected_class(st, reg, kind, key)
         p = w.qpoint(real.img(g[0], g[1], T))
